@@ -10,11 +10,12 @@ import ecc_scen as es
 import ecc_util as eu
 from common import hx
 
-LEAN_MODULES = ["Pff.Props.C15", "Pff.Props.Chain2"]
+LEAN_MODULES = ["Pff.Props.C15", "Pff.Props.Chain2", "Pff.Props.NonVacuity"]
 PROP_MODULE = "Pff.Props.C15"
 THEOREMS = ["Pff.Entry.C15_offsets", "Pff.Entry.C15_recover", "Pff.Entry.C15_skip", "Pff.Entry.C15_unusable",
             "Pff.Chain.C15_chain_A",
-            "Pff.Chain.C15_chain_B"]
+            "Pff.Chain.C15_chain_B",
+            "Pff.NonVacuity.pristine_idxWithinCapacity"]
 MODELLED = [("pyFileFixity/repair_ecc.py", "main"), ("pyFileFixity/header_ecc.py", "main"), ("pyFileFixity/structural_adaptive_ecc.py", "main")]
 TRUSTED_BASE = [
     "Lean 4.33.0 kernel; axioms per theorem under coverage.theorems (subset of propext, Classical.choice, Quot.sound)",
